@@ -111,7 +111,7 @@ def run(ctx):
     # TIE-H: in real runs every round of simplifications is generated from a tree
     import e2e
     import e2ejobs
-    nruns = 60 if ctx.thorough else 14
+    nruns = 72 if ctx.thorough else 18
     jobs = []
     for i in range(nruns):
         j = e2ejobs.job(rng, strategy=['ddmin', 'hybrid', 'hierarchical', 'ddmin'][i % 4], jobs=rng.choice([1, 1, 2, 4]),
@@ -126,7 +126,7 @@ def run(ctx):
                          '(set-logic ALL)\n(declare-const a Int)\n(declare-const b Int)\n(declare-fun f (Int Int) Int)\n'
                          '(assert (= a b))\n(assert (> (f a a) (f a b)))\n(assert (let ((z b)) (= (f z z) (f a z))))\n(check-sat)\n'][(i // 3) % 3]
             j['cmd'] = [e2e.TOKPRED, 'all', 'f', 'let'] if i % 2 == 0 else [e2e.TOKPRED, 'all', 'f', rng.choice(['a', 'b'])]
-            j['opts'] = ['--strategy', ['ddmin', 'hybrid'][(i // 3) % 2], '-j', str(rng.choice([1, 1, 3]))]
+            j['opts'] = ['--strategy', ['ddmin', 'hierarchical', 'hybrid'][(i // 3) % 3], '-j', str(rng.choice([1, 1, 3]))]
             # the sharing mutators in isolation (nothing else reshapes the terms first)
             j['opts'] += [[], ['--disable-all', '--let-substitution'], ['--disable-all', '--eliminate-variables', '--let-substitution'],
                           ['--disable-all', '--let-substitution', '--inline-functions']][(i // 3) % 4]
